@@ -1007,6 +1007,330 @@ fn phases(log: &[(usize, usize)], n: usize, calls: usize) -> (Vec<Vec<usize>>, u
 }
 
 // ---------------------------------------------------------------- main
+// ---------------------------------------------------------------- history dimension (round 5)
+// State that survives INSIDE an object between two calls (a compiled regex cached in a parameter object, a buffer
+// read before it is written, a generator that is advanced instead of cloned) breaks "same parameters => same
+// result" without showing in fits of freshly built objects.  Per estimator, bit for bit:
+//   (a) fresh parameter object P(S, seed)                                   -> `fresh`
+//   (b) object built with other settings S', fitted once on other data, re-configured to S (same seed) through
+//       the documented setters, fitted                                      -> `reconf`  must equal `fresh`
+//   (c) one object fitted twice in a row on the same data (`&self`)          -> `first`, `second` must equal `fresh`
+//   (d) model 1 applied to batch B1 and then to B2, model 2 applied to B2 only -> `b2_seen` must equal `b2_unseen`
+// Specification: coq/C20/PropertiesR5.v (configure_then_fit_ignores_history, refit_same_object_same_model and the
+// refuted converses); the digests also go to Coq as a CHist case (hist_functional, certified per run).
+struct HistObs { fresh: String, other: String, reconf: String, first: String, second: String, b1: String, b2_seen: String, b2_unseen: String }
+
+fn hrun<G: FnOnce() -> Result<String, String>>(f: G) -> String {
+    match guarded(std::panic::AssertUnwindSafe(f)) {
+        Ok(Ok(t)) => t,
+        Ok(Err(e)) => format!("ERROR: {}", e),
+        Err(p) => format!("PANIC: {}", p),
+    }
+}
+
+macro_rules! hist_obs {
+    (fresh: $fresh:expr, other: $other:expr, reconf: |$p:ident| $reconf:expr, fit: |$q:ident, $d:ident| $fit:expr,
+     data: $ds:expr, other_data: $ods:expr, digest: |$m:ident| $dig:expr, apply: |$a:ident, $b:ident| $app:expr, b1: $b1:expr, b2: $b2:expr) => {{
+        let fresh = hrun(|| { let $q = $fresh; let $d = $ds; let mm = ($fit).map_err(es)?; let $m = &mm; Ok($dig) });
+        let mut other = String::from("<not run>");
+        let reconf = hrun(|| {
+            let $p = $other;
+            other = hrun(|| { let $q = &$p; let $d = $ods; let mm = ($fit).map_err(es)?; let $m = &mm; Ok($dig) });
+            let $q = $reconf;
+            let $d = $ds;
+            let mm = ($fit).map_err(es)?;
+            let $m = &mm;
+            Ok($dig)
+        });
+        let (mut first, mut second, mut b1o, mut b2s, mut b2u) = (String::new(), String::new(), String::new(), String::new(), String::new());
+        let r = hrun(|| {
+            let $q = $fresh;
+            let $d = $ds;
+            let m1 = ($fit).map_err(es)?;
+            let m2 = ($fit).map_err(es)?;
+            { let $m = &m1; first = $dig; }
+            { let $m = &m2; second = $dig; }
+            { let $a = &m1; let $b = $b1; b1o = $app; }
+            { let $a = &m1; let $b = $b2; b2s = $app; }
+            { let $a = &m2; let $b = $b2; b2u = $app; }
+            Ok(String::new())
+        });
+        if !r.is_empty() {
+            for t in [&mut first, &mut second, &mut b1o, &mut b2s, &mut b2u] { if t.is_empty() { *t = r.clone(); } }
+        }
+        HistObs { fresh, other, reconf, first, second, b1: b1o, b2_seen: b2s, b2_unseen: b2u }
+    }};
+}
+
+fn hist_verdict(out: &mut Out, idx: u64, est: &str, desc: &str, o: &HistObs) {
+    let (rid, cid) = (300_000 + idx, 300_500 + idx);
+    let tag = format!("history_{}", est);
+    if out.wanted(rid) {
+        out.bump(&tag);
+        let failed = |t: &str| t.starts_with("ERROR: ") || t.starts_with("PANIC: ");
+        if failed(&o.fresh) {
+            out.bump("history_fresh_fit_failed");
+            eprintln!("note: history case {} ({}): the fit of the fresh object fails (compared like any other result): {}", rid, est, &o.fresh[..o.fresh.len().min(200)]);
+        }
+        if failed(&o.other) { out.bump("history_other_settings_fit_failed"); }
+        let mut diffs: Vec<String> = vec![];
+        for (kind, want, got) in [
+            ("reconfigured", &o.fresh, &o.reconf), ("first_of_two_fits", &o.fresh, &o.first), ("second_fit_same_object", &o.fresh, &o.second),
+            ("batch2_after_batch1", &o.b2_unseen, &o.b2_seen),
+        ] {
+            out.bump(&format!("history_compared_{}", kind));
+            if want != got { diffs.push(format!("{}:{}", kind, first_diff(want, got))); }
+        }
+        if o.other != o.fresh { out.bump("history_other_settings_give_other_result"); }
+        if o.b1 != o.b2_seen { out.bump("history_batches_give_different_outputs"); }
+        out.rust_eval(desc, if o.other != o.fresh && !failed(&o.fresh) { Some(fnv(desc.as_bytes())) } else { None });
+        if !diffs.is_empty() {
+            out.rust_fail(rid, 32, &["history", &tag], &format!("{}: result depends on the history of the object (fresh object / model that never saw the first batch is the reference); {}", est, diffs.join("; ")), desc);
+        }
+    }
+    // the same observations for the Coq checker: settings ids 0 = S, 1 = S', 100 = "the model fitted from S";
+    // data ids 0 = data, 1 = other data, 10 / 11 = batches B1 / B2
+    let g = |t: &String| cn(fnv(t.as_bytes()));
+    let coq = format!(
+        "(CHist {} [({}, [HFit {} {}]); ({}, [HFit {} {}; HSet {}; HFit {} {}]); ({}, [HFit {} {}; HFit {} {}]); ({}, [HFit {} {}; HFit {} {}]); ({}, [HFit {} {}])])",
+        cn(cid), cn(0), cn(0), g(&o.fresh), cn(1), cn(1), g(&o.other), cn(0), cn(0), g(&o.reconf), cn(0), cn(0), g(&o.first), cn(0), g(&o.second),
+        cn(100), cn(10), g(&o.b1), cn(11), g(&o.b2_seen), cn(100), cn(11), g(&o.b2_unseen)
+    );
+    out.case(cid, &coq, &["history", "coq_history", &tag], desc, if o.other != o.fresh { Some(fnv(desc.as_bytes()) ^ 0x51) } else { None });
+}
+
+fn history_checks(out: &mut Out, seed: u64, thorough: bool) {
+    use linfa_bayes::{GaussianNb, MultinomialNb};
+    use linfa_elasticnet::ElasticNet;
+    use linfa_ftrl::Ftrl;
+    use linfa_logistic::{LogisticRegression, MultiLogisticRegression};
+    use linfa_preprocessing::linear_scaling::{LinearScaler, ScalingMethod};
+    use linfa_preprocessing::tf_idf_vectorization::TfIdfVectorizer;
+    use linfa_preprocessing::whitening::{Whitener, WhiteningMethod};
+    use linfa_preprocessing::{CountVectorizer, Tokenizer};
+    use linfa_reduction::random_projection::{GaussianRandomProjection, SparseRandomProjection};
+    use linfa_reduction::Pca;
+    use linfa_svm::Svm;
+    use linfa_trees::{DecisionTree, SplitQuality};
+    let mut r = Sm64::new(seed ^ 0x4157_0215);
+    let rounds = if thorough { 8 } else { 2 };
+    let mut idx = 0u64;
+    let ftrl_pred = |m: &Ftrl<f64>, b: &Array2<f64>| m.predict(b).iter().map(|p| format!("{:08x}", (**p).to_bits())).collect::<Vec<_>>().join(",");
+    for round in 0..rounds {
+        let (n, n2, p) = (90 + r.below(120) as usize, 60 + r.below(80) as usize, 3 + r.below(2) as usize);
+        let (dseed, oseed) = (r.next(), r.next());
+        let x = mat(&blobs(&mut Sm64::new(dseed), n, p, 3, 1.5));
+        let xo = mat(&blobs(&mut Sm64::new(oseed), n2, p, 4, 2.5));
+        let mut g = Sm64::new(dseed ^ 1);
+        let labs = distinct_labels(&mut g, 3);
+        let y3 = Array1::from((0..n).map(|k| if g.chance(0.15) { *g.pick(&labs) } else { labs[k % 3] }).collect::<Vec<usize>>());
+        let y3o = Array1::from((0..n2).map(|k| labs[(k * 7 + k / 3) % 3]).collect::<Vec<usize>>());
+        let yb = Array1::from((0..n).map(|k| (k % 3 == 0) ^ g.chance(0.1)).collect::<Vec<bool>>());
+        let ybo = Array1::from((0..n2).map(|k| k % 2 == 0).collect::<Vec<bool>>());
+        let yr = Array1::from((0..n).map(|k| 0.3 * x[[k, 0]] - 0.2 * x[[k, 1]] + 0.1 * g.gauss()).collect::<Vec<f64>>());
+        let yro = Array1::from((0..n2).map(|k| xo[[k, 1]] * 0.5 + 0.2 * g.gauss()).collect::<Vec<f64>>());
+        let xc = x.mapv(|v| (v.abs() * 2.0).floor());
+        let xco = xo.mapv(|v| (v.abs() * 3.0).floor());
+        let ds = DatasetBase::from(x.clone());
+        let dso = DatasetBase::from(xo.clone());
+        let (ds3, ds3o) = (Dataset::new(x.clone(), y3.clone()), Dataset::new(xo.clone(), y3o.clone()));
+        let (dsc, dsco) = (Dataset::new(xc.clone(), y3.clone()), Dataset::new(xco.clone(), y3o.clone()));
+        let (dsb, dsbo) = (Dataset::new(x.clone(), yb.clone()), Dataset::new(xo.clone(), ybo.clone()));
+        let (dsr, dsro) = (Dataset::new(x.clone(), yr.clone()), Dataset::new(xo.clone(), yro.clone()));
+        let b1 = xo.slice(ndarray::s![..n2 / 2, ..]).to_owned();
+        let b2 = x.slice(ndarray::s![..40, ..]).to_owned();
+        let (b1c, b2c) = (b1.mapv(|v| (v.abs() * 2.0).floor()), b2.mapv(|v| (v.abs() * 2.0).floor()));
+        let docs = Array1::from(random_corpus(&mut r).into_iter().chain(tie_corpus(&mut r).0).collect::<Vec<String>>());
+        let docso = Array1::from(random_corpus(&mut r).into_iter().map(|d| d.to_uppercase()).collect::<Vec<String>>());
+        let (tb1, tb2) = (Array1::from(random_corpus(&mut r)), Array1::from(random_corpus(&mut r)));
+        let s = r.below(1000);
+        let k = 2 + r.below(3) as usize;
+        let base = format!("\"round\": {}, \"data\": \"blobs(Sm64::new({}), n={}, p={}, centres=3, spread=1.5)\", \"other_data\": \"blobs(Sm64::new({}), n={}, p={}, centres=4, spread=2.5)\", \"seed\": {}, \"sequence\": \"(a) fresh P(S,seed).fit(data); (b) P(S',seed').fit(other_data), setters to S (and seed), fit(data); (c) P(S,seed) fitted twice on data; (d) model 1 on batch B1 (other_data[..n/2]) then B2 (data[..40]), model 2 on B2 only\"", round, dseed, n, p, oseed, n2, p, s);
+        let rng = |v: u64| Xoshiro256Plus::seed_from_u64(v);
+        let mut emit = |out: &mut Out, est: &str, settings: &str, o: HistObs| {
+            let desc = format!("{{\"case\": \"history\", \"estimator\": {}, \"settings\": {}, {}}}", jstr(est), jstr(settings), base);
+            hist_verdict(out, idx, est, &desc, &o);
+            idx += 1;
+        };
+
+        let o = hist_obs!(
+            fresh: KMeans::params_with_rng(k, rng(s)).n_runs(2).max_n_iterations(30).tolerance(1e-4).init_method(KMeansInit::KMeansPlusPlus),
+            other: KMeans::params_with_rng(k, rng(s)).n_runs(1).max_n_iterations(2).tolerance(1e-1).init_method(KMeansInit::Random),
+            reconf: |p| p.n_runs(2).max_n_iterations(30).tolerance(1e-4).init_method(KMeansInit::KMeansPlusPlus),
+            fit: |q, d| q.fit(d), data: &ds, other_data: &dso,
+            digest: |m| format!("{:?}", kmeans_comps(m, &x)),
+            apply: |m, b| format!("{}|{}", us(m.predict(b).iter()), a1(&m.transform(b))), b1: &b1, b2: &b2);
+        emit(out, "kmeans", "S: k, n_runs 2, max_n_iterations 30, tolerance 1e-4, KMeansPlusPlus; S': n_runs 1, max_n_iterations 2, tolerance 1e-1, Random (the generator is fixed at construction and cloned per fit)", o);
+
+        let o = hist_obs!(
+            fresh: GaussianMixtureModel::params_with_rng(k, rng(s)).n_runs(2).max_n_iterations(40).tolerance(1e-4).reg_covariance(1e-5).init_method(GmmInitMethod::KMeans),
+            other: GaussianMixtureModel::params_with_rng(k, rng(s + 17)).n_runs(1).max_n_iterations(3).tolerance(1e-1).reg_covariance(1e-2).init_method(GmmInitMethod::Random),
+            reconf: |p| p.with_rng(rng(s)).n_runs(2).max_n_iterations(40).tolerance(1e-4).reg_covariance(1e-5).init_method(GmmInitMethod::KMeans),
+            fit: |q, d| q.fit(d), data: &ds, other_data: &dso,
+            digest: |m| format!("{}|{}", jcanon(m), us(m.predict(&x).iter())),
+            apply: |m, b| us(m.predict(b).iter()), b1: &b1, b2: &b2);
+        emit(out, "gmm", "S: n_runs 2, max_n_iterations 40, tolerance 1e-4, reg_covariance 1e-5, KMeans init, with_rng(seed); S': seed+17, n_runs 1, max_n_iterations 3, tolerance 1e-1, reg 1e-2, Random init", o);
+
+        let wh = round % 2 == 0;
+        let o = hist_obs!(
+            fresh: Pca::params(2).whiten(wh), other: Pca::params(2).whiten(!wh), reconf: |p| p.whiten(wh),
+            fit: |q, d| q.fit(d), data: &ds, other_data: &dso,
+            digest: |m| format!("{}|{}", jcanon(m), a2(&m.predict(&x))),
+            apply: |m, b| a2(&m.predict(b)), b1: &b1, b2: &b2);
+        emit(out, "pca", "S: embedding 2, whiten w; S': whiten !w", o);
+
+        let o = hist_obs!(
+            fresh: DecisionTree::<f64, usize>::params().split_quality(SplitQuality::Gini).max_depth(Some(4)).min_weight_split(2.0).min_weight_leaf(1.0).min_impurity_decrease(1e-7),
+            other: DecisionTree::<f64, usize>::params().split_quality(SplitQuality::Entropy).max_depth(Some(1)).min_weight_split(6.0).min_weight_leaf(3.0).min_impurity_decrease(1e-2),
+            reconf: |p| p.split_quality(SplitQuality::Gini).max_depth(Some(4)).min_weight_split(2.0).min_weight_leaf(1.0).min_impurity_decrease(1e-7),
+            fit: |q, d| q.fit(d), data: &ds3, other_data: &ds3o,
+            digest: |m| format!("{}|{}|{}", jcanon(m), us(m.predict(&x).iter()), bits(m.feature_importance().iter())),
+            apply: |m, b| us(m.predict(b).iter()), b1: &b1, b2: &b2);
+        emit(out, "tree", "S: gini, max_depth 4, min_weight_split 2, min_weight_leaf 1, min_impurity_decrease 1e-7; S': entropy, depth 1, 6, 3, 1e-2", o);
+
+        let o = hist_obs!(
+            fresh: GaussianNb::<f64, usize>::params().var_smoothing(1e-9), other: GaussianNb::<f64, usize>::params().var_smoothing(0.3), reconf: |p| p.var_smoothing(1e-9),
+            fit: |q, d| q.fit(d), data: &ds3, other_data: &ds3o,
+            digest: |m| format!("{}|{}", jcanon(m), us(m.predict(&x).iter())),
+            apply: |m, b| us(m.predict(b).iter()), b1: &b1, b2: &b2);
+        emit(out, "gaussian_nb", "S: var_smoothing 1e-9; S': 0.3", o);
+
+        let o = hist_obs!(
+            fresh: MultinomialNb::<f64, usize>::params().alpha(1.0), other: MultinomialNb::<f64, usize>::params().alpha(0.25), reconf: |p| p.alpha(1.0),
+            fit: |q, d| q.fit(d), data: &dsc, other_data: &dsco,
+            digest: |m| format!("{}|{}", jcanon(m), us(m.predict(&xc).iter())),
+            apply: |m, b| us(m.predict(b).iter()), b1: &b1c, b2: &b2c);
+        emit(out, "multinomial_nb", "S: alpha 1; S': alpha 0.25 (count data floor(2|x|))", o);
+
+        let o = hist_obs!(
+            fresh: Ftrl::<f64>::params_with_rng(rng(s)).alpha(0.1).beta(1.0).l1_ratio(0.3).l2_ratio(0.7),
+            other: Ftrl::<f64>::params_with_rng(rng(s + 5)).alpha(0.5).beta(0.2).l1_ratio(0.9).l2_ratio(0.1),
+            reconf: |p| p.rng(rng(s)).alpha(0.1).beta(1.0).l1_ratio(0.3).l2_ratio(0.7),
+            fit: |q, d| q.fit_with(None, d), data: &dsb, other_data: &dsbo,
+            digest: |m| format!("{}|{}", jcanon(m), ftrl_pred(m, &x)),
+            apply: |m, b| ftrl_pred(m, b), b1: &b1, b2: &b2);
+        emit(out, "ftrl", "S: rng(seed), alpha 0.1, beta 1, l1 0.3, l2 0.7; S': rng(seed+5), 0.5, 0.2, 0.9, 0.1; fit_with(None, data)", o);
+
+        let cv_dig = |cv: &CountVectorizer, t: &Array1<String>| -> String {
+            match cv.transform(t) {
+                Ok(sm) => {
+                    let m = sm.to_dense();
+                    let mut by_word: BTreeMap<String, Vec<usize>> = BTreeMap::new();
+                    for (j, w) in cv.vocabulary().iter().enumerate() { by_word.insert(w.clone(), m.column(j).to_vec()); }
+                    format!("{}|{:?}", cv.nentries(), by_word)
+                }
+                Err(e) => format!("ERROR: {}", e),
+            }
+        };
+        let o = hist_obs!(
+            fresh: CountVectorizer::params().tokenizer(Tokenizer::Regex(r"\b\w\w+\b".to_string())).n_gram_range(1, 2).max_features(Some(6)).convert_to_lowercase(true).normalize(true).document_frequency(0.0, 1.0).stopwords(&["aa", "zz"]),
+            other: CountVectorizer::params().tokenizer(Tokenizer::Regex(r"[a-z]".to_string())).n_gram_range(2, 3).max_features(None).convert_to_lowercase(false).normalize(false).document_frequency(0.1, 0.9).stopwords(&["bb"]),
+            reconf: |p| p.tokenizer(Tokenizer::Regex(r"\b\w\w+\b".to_string())).n_gram_range(1, 2).max_features(Some(6)).convert_to_lowercase(true).normalize(true).document_frequency(0.0, 1.0).stopwords(&["aa", "zz"]),
+            fit: |q, d| q.fit(d), data: &docs, other_data: &docso,
+            digest: |m| cv_dig(m, &docs),
+            apply: |m, b| cv_dig(m, b), b1: &tb1, b2: &tb2);
+        emit(out, "count_vectorizer", "S: tokenizer regex \\b\\w\\w+\\b, n-grams 1..2, max_features 6, lower-casing, normalize, df [0,1], stop words aa zz; S': regex [a-z] (single letters), n-grams 2..3, no cap, no lower-casing, no normalize, df [0.1,0.9], stop word bb; other data = upper-cased corpus", o);
+
+        let tv_dig = |tv: &linfa_preprocessing::tf_idf_vectorization::FittedTfIdfVectorizer, t: &Array1<String>| -> String {
+            match tv.transform(t) {
+                Ok(sm) => {
+                    let tm = sm.to_dense();
+                    let mut tby: BTreeMap<String, String> = BTreeMap::new();
+                    for (j, w) in tv.vocabulary().iter().enumerate() { tby.insert(w.clone(), bits(tm.column(j).iter())); }
+                    format!("{}|{:?}", tv.nentries(), tby)
+                }
+                Err(e) => format!("ERROR: {}", e),
+            }
+        };
+        let o = hist_obs!(
+            fresh: TfIdfVectorizer::default().tokenizer(Tokenizer::Regex(r"\b\w\w+\b".to_string())).n_gram_range(1, 2).max_features(Some(6)).convert_to_lowercase(true).document_frequency(0.0, 1.0),
+            other: TfIdfVectorizer::default().tokenizer(Tokenizer::Regex(r"[a-z]".to_string())).n_gram_range(2, 3).max_features(None).convert_to_lowercase(false).document_frequency(0.1, 0.9),
+            reconf: |p| p.tokenizer(Tokenizer::Regex(r"\b\w\w+\b".to_string())).n_gram_range(1, 2).max_features(Some(6)).convert_to_lowercase(true).document_frequency(0.0, 1.0),
+            fit: |q, d| q.fit(d), data: &docs, other_data: &docso,
+            digest: |m| tv_dig(m, &docs),
+            apply: |m, b| tv_dig(m, b), b1: &tb1, b2: &tb2);
+        emit(out, "tfidf", "S: tokenizer regex \\b\\w\\w+\\b, n-grams 1..2, max_features 6, lower-casing, df [0,1]; S': regex [a-z] (single letters), n-grams 2..3, no cap, no lower-casing, df [0.1,0.9]", o);
+
+        let o = hist_obs!(
+            fresh: LogisticRegression::<f64>::default().alpha(1.0).with_intercept(true).max_iterations(80).gradient_tolerance(1e-4),
+            other: LogisticRegression::<f64>::default().alpha(0.01).with_intercept(false).max_iterations(3).gradient_tolerance(1e-1),
+            reconf: |p| p.alpha(1.0).with_intercept(true).max_iterations(80).gradient_tolerance(1e-4),
+            fit: |q, d| q.fit(d), data: &dsb, other_data: &dsbo,
+            digest: |m| format!("{}|{:?}", jcanon(m), m.predict(&x).to_vec()),
+            apply: |m, b| format!("{:?}", m.predict(b).to_vec()), b1: &b1, b2: &b2);
+        emit(out, "logistic", "S: alpha 1, intercept, max_iterations 80, gradient_tolerance 1e-4; S': alpha 0.01, no intercept, 3 iterations, 1e-1", o);
+
+        let o = hist_obs!(
+            fresh: MultiLogisticRegression::<f64>::default().alpha(1.0).with_intercept(true).max_iterations(60).gradient_tolerance(1e-4),
+            other: MultiLogisticRegression::<f64>::default().alpha(0.01).with_intercept(false).max_iterations(3).gradient_tolerance(1e-1),
+            reconf: |p| p.alpha(1.0).with_intercept(true).max_iterations(60).gradient_tolerance(1e-4),
+            fit: |q, d| q.fit(d), data: &ds3, other_data: &ds3o,
+            digest: |m| format!("{}|{}", jcanon(m), us(m.predict(&x).iter())),
+            apply: |m, b| us(m.predict(b).iter()), b1: &b1, b2: &b2);
+        emit(out, "multilogistic", "S: alpha 1, intercept, max_iterations 60, gradient_tolerance 1e-4; S': alpha 0.01, no intercept, 3 iterations, 1e-1", o);
+
+        let o = hist_obs!(
+            fresh: Svm::<f64, bool>::params().pos_neg_weights(1.0, 1.0).gaussian_kernel(30.0).eps(1e-3).shrinking(false),
+            other: Svm::<f64, bool>::params().nu_weight(0.4).linear_kernel().eps(1e-1).shrinking(true),
+            reconf: |p| p.pos_neg_weights(1.0, 1.0).gaussian_kernel(30.0).eps(1e-3).shrinking(false),
+            fit: |q, d| q.fit(d), data: &dsb, other_data: &dsbo,
+            digest: |m| format!("{:?}|{:?}", m, m.predict(&x).to_vec()),
+            apply: |m, b| format!("{:?}", m.predict(b).to_vec()), b1: &b1, b2: &b2);
+        emit(out, "svc", "S: C (1,1), gaussian kernel 30, eps 1e-3, no shrinking; S': nu 0.4, linear kernel, eps 1e-1, shrinking", o);
+
+        let o = hist_obs!(
+            fresh: Svm::<f64, f64>::params().c_svr(1.0, Some(0.1)).gaussian_kernel(20.0).eps(1e-3),
+            other: Svm::<f64, f64>::params().nu_svr(0.5, Some(2.0)).polynomial_kernel(1.0, 2.0).eps(1e-1),
+            reconf: |p| p.c_svr(1.0, Some(0.1)).gaussian_kernel(20.0).eps(1e-3),
+            fit: |q, d| q.fit(d), data: &dsr, other_data: &dsro,
+            digest: |m| format!("{:?}|{}", m, a1(&m.predict(&x))),
+            apply: |m, b| a1(&m.predict(b)), b1: &b1, b2: &b2);
+        emit(out, "svr", "S: c_svr(1, 0.1), gaussian kernel 20, eps 1e-3; S': nu_svr(0.5, 2), polynomial kernel (1, 2), eps 1e-1", o);
+
+        let o = hist_obs!(
+            fresh: ElasticNet::<f64>::params().penalty(0.05).l1_ratio(0.5).with_intercept(true).tolerance(1e-5).max_iterations(500),
+            other: ElasticNet::<f64>::params().penalty(1.5).l1_ratio(1.0).with_intercept(false).tolerance(1e-1).max_iterations(2),
+            reconf: |p| p.penalty(0.05).l1_ratio(0.5).with_intercept(true).tolerance(1e-5).max_iterations(500),
+            fit: |q, d| q.fit(d), data: &dsr, other_data: &dsro,
+            digest: |m| format!("{}|{}", jcanon(m), a1(&m.predict(&x))),
+            apply: |m, b| a1(&m.predict(b)), b1: &b1, b2: &b2);
+        emit(out, "elasticnet", "S: penalty 0.05, l1_ratio 0.5, intercept, tolerance 1e-5, 500 iterations; S': 1.5, 1.0, no intercept, 1e-1, 2", o);
+
+        let o = hist_obs!(
+            fresh: LinearScaler::<f64>::standard(), other: LinearScaler::<f64>::min_max_range(-2.0, 5.0), reconf: |p| p.method(ScalingMethod::Standard(true, true)),
+            fit: |q, d| q.fit(d), data: &ds, other_data: &dso,
+            digest: |m| format!("{}|{}", jcanon(m), a2(&m.transform(x.clone()))),
+            apply: |m, b| a2(&m.transform(b.clone())), b1: &b1, b2: &b2);
+        emit(out, "linear_scaler", "S: Standard(true, true); S': MinMax(-2, 5)", o);
+
+        let o = hist_obs!(
+            fresh: Whitener::pca(), other: Whitener::cholesky(), reconf: |p| p.method(WhiteningMethod::Pca),
+            fit: |q, d| q.fit(d), data: &ds, other_data: &dso,
+            digest: |m| format!("{}|{}", jcanon(m), a2(&m.transform(x.clone()))),
+            apply: |m, b| a2(&m.transform(b.clone())), b1: &b1, b2: &b2);
+        emit(out, "whitener", "S: Pca; S': Cholesky", o);
+
+        let td = 1 + r.below(p as u64 - 1) as usize;
+        let o = hist_obs!(
+            fresh: GaussianRandomProjection::<f64>::params_with_rng(rng(s)).target_dim(td),
+            other: GaussianRandomProjection::<f64>::params_with_rng(rng(s + 3)).target_dim(td + 1),
+            reconf: |p| p.with_rng(rng(s)).target_dim(td),
+            fit: |q, d| q.fit(d), data: &ds, other_data: &dso,
+            digest: |m| a2(&m.transform(&x)),
+            apply: |m, b| a2(&m.transform(b)), b1: &b1, b2: &b2);
+        emit(out, "gaussian_projection", "S: rng(seed), target_dim td; S': rng(seed+3), target_dim td+1", o);
+
+        let o = hist_obs!(
+            fresh: SparseRandomProjection::<f64>::params_with_rng(rng(s)).target_dim(td),
+            other: SparseRandomProjection::<f64>::params_with_rng(rng(s + 3)).target_dim(td + 1),
+            reconf: |p| p.with_rng(rng(s)).target_dim(td),
+            fit: |q, d| q.fit(d), data: &ds, other_data: &dso,
+            digest: |m| a2(&m.transform(&x)),
+            apply: |m, b| a2(&m.transform(b)), b1: &b1, b2: &b2);
+        emit(out, "sparse_projection", "S: rng(seed), target_dim td; S': rng(seed+3), target_dim td+1", o);
+    }
+}
+
 fn main() {
     let args = parse_args();
     let thorough = args.tier == "thorough";
@@ -1501,6 +1825,8 @@ fn main() {
             eprintln!("note: {:?} was written for another repository checkout; search step skipped", reach);
         }
     }
+    // (9) history dimension: re-configured / re-used parameter objects and re-used models against fresh ones
+    history_checks(&mut out, args.seed, thorough);
     out.bump_by("child_processes", child_out.len() as u64);
     out.finish("scenario = estimator x generated dataset x parameters (tree / naive Bayes / hierarchical inputs are tie-heavy: duplicated rows with conflicting labels, identical classes, lattice distances); every scenario is run twice on the global pool, on pools of 1/2/5/16 threads (thorough: 1,2,3,5,7,11,16) and in fresh processes with RAYON_NUM_THREADS in {1,2,3,5,8,16} (thorough: 1..16); all learned quantities and predictions are compared bit for bit; Coq cases: observed hash-map entry lists, k-means task schedules and the vocabulary orders / transformed rows of repeated count-vectoriser fits; a case is non-trivial when it has ties / several threads / a permuted schedule; distinct = distinct scenario descriptions");
 }
